@@ -66,6 +66,18 @@ class ReachingDefs(object):
                     for t in a.targets:
                         if isinstance(t, ast.Name):
                             out.append(Def(n, t.id, 'assign', a.value))
+                        elif isinstance(t, (ast.Tuple, ast.List)) and \
+                                isinstance(a.value, (ast.Tuple, ast.List)) and \
+                                len(t.elts) == len(a.value.elts) and \
+                                not any(isinstance(e, ast.Starred) for e in t.elts + a.value.elts):
+                            # a, b = x, y: each name gets its own right-hand side (all of them
+                            # evaluated before any is bound, so they speak of the old values)
+                            for te, ve in zip(t.elts, a.value.elts):
+                                if isinstance(te, ast.Name):
+                                    out.append(Def(n, te.id, 'assign', ve))
+                                else:
+                                    for nm in _names_stored(te):
+                                        out.append(Def(n, nm, 'other', None))
                         else:
                             for nm in _names_stored(t):
                                 out.append(Def(n, nm, 'other', None))
